@@ -97,7 +97,7 @@ func normSchemaDescs(s Schema) Schema {
 }
 
 func emptySchema() *Schema {
-	return &Schema{Types: []TypeDef{}, Dirs: []DirDef{}}
+	return &Schema{Types: []TypeDef{}, Dirs: []DirDef{}, STags: []string{}}
 }
 
 func guard(stage string, f func() error) (err error) {
@@ -162,6 +162,51 @@ func runCase(c Case, raw bool) (lines []any, res caseResult) {
 		add(tag{"ev": "fail", "stage": "schema", "err": err.Error()})
 		res.Lines = len(lines)
 		return lines, res
+	}
+	generate := func(sch *graphql.Schema) (out []byte, err error) {
+		err = guard("introspection.Generator", func() error {
+			var data introspection.Data
+			var report operationreport.Report
+			gen := introspection.NewGenerator()
+			gen.Generate(sch.Document(), &report, &data)
+			if report.HasErrors() {
+				return fmt.Errorf("generator report: %s", report.Error())
+			}
+			var e error
+			out, e = json.Marshal(data)
+			return e
+		})
+		return
+	}
+	if c.S.HasExtensions() {
+		// The engine works on the document as given; graphql.Schema.Normalize() is the library's way to merge type
+		// extensions. View gen.unnormalized records what the Generator says about the document as parsed; everything
+		// else (gen, round trip, engine) runs on the normalized schema.
+		if raw, err := generate(schema); err != nil {
+			add(tag{"ev": "fail", "stage": "generator.unnormalized", "err": err.Error()})
+		} else {
+			var d map[string]any
+			_ = json.Unmarshal(raw, &d)
+			addObs("gen.unnormalized", "schema", "", true, "full", 0, normalizer{}.schema(d["__schema"]))
+		}
+		var nerr error
+		if err := guard("Schema.Normalize", func() error {
+			res, e := schema.Normalize()
+			if e != nil {
+				return e
+			}
+			if !res.Successful {
+				nerr = fmt.Errorf("%v", res.Errors)
+			}
+			return nil
+		}); err != nil || nerr != nil {
+			if err == nil {
+				err = nerr
+			}
+			add(tag{"ev": "fail", "stage": "normalize", "err": err.Error()})
+			res.Lines = len(lines)
+			return lines, res
+		}
 	}
 	// ---- 3. generator
 	var dataJSON []byte
